@@ -11,13 +11,19 @@ gen(ctx)   regenerates coq/gen/{CurveTables,DocTable,Primes,CurveNames}.v from t
            code through harness binary `curves`.
 run(ctx)   end-to-end sweep of the real CLI binary under --curve over generated
            .circom files, compared with (a) the Gallina model Model.Curves
-           evaluated by vm_compute over the same abstract programs and (b) the
-           documented semantics (doc table with Circomlib's spelling; n < 254;
-           2^k - 1 <= p/2 with the documented primes; ASCII case-insensitive
-           curve names) as the oracle.  Every file is also run WITHOUT --curve
+           evaluated by vm_compute over abstract programs that are DERIVED FROM THE
+           TOOL'S IR (third audit: harness `curves ir` sends each file through
+           AnalysisRunner::with_files per curve and prints what the passes inspect of
+           every statement; the generator only states its expectation of that) and
+           (b) the documented semantics (doc table with Circomlib's spelling; n < 254;
+           2^k - 1 <= p/2 with the documented primes; syntactic identity of values;
+           ASCII case-insensitive curve names for EVERY spelling, non-ASCII ones
+           included) as the oracle.  Every file is also run WITHOUT --curve
            (the default curve is observed, not read: compared under BN254), and
            the `default_value` of the `curve` field of struct Cli plus the const
-           DEFAULT_CURVE are anchored items of the strict reader.
+           DEFAULT_CURVE are anchored items of the source reader.  Expression::eq /
+           Hash are executed against structural identity on every pair of key
+           expressions; three main-component probes (known finding when listed).
 """
 import concurrent.futures
 import itertools
@@ -74,6 +80,25 @@ CMP = {"<": "CLt", "<=": "CLe", ">": "CGt", ">=": "CGe", "==": "CEq", "!=": "CNe
 DEFTYPES = ("Function", "Template", "CustomTemplate")
 
 
+FLIP = {"<": ">", "<=": ">=", ">": "<", ">=": "<=", "==": "==", "!=": "!="}
+
+
+def _cmp(env, what, problems):
+    """The comparison `value <op> bound`, written either way round (`bound <op'> value`): exactly one
+    of the two optional groups of the template matched."""
+    if len(env["fwd"]) + len(env["rev"]) != 1:
+        problems.append("%s: the guard comparison is not one comparison of the value with the bound" % what)
+        return None
+    return env["fwd"][0]["op"] if env["fwd"] else FLIP[env["rev"][0]["op"]]
+
+
+def _one_of(env, a, b, what, problems):
+    if len(env[a]) + len(env[b]) != 1:
+        problems.append("%s: expected exactly one of the two accepted spellings" % what)
+        return False
+    return True
+
+
 def _offset(env):
     """`prime_size() - 1` -> -1 (the optional `<sign> <number>` group)."""
     if not env["off"]:
@@ -126,13 +151,16 @@ def parse_sources():
         problems.append("expected two const arrays in bn254_specific_circuit.rs, recognised %d" % len(arrays))
     dispatch = []
     for arm in env.get("bn254::find_bn254_specific_circuits", {}).get("arms", []):
-        if len(arm["arr"]) + len(arm["ret"]) != 1:
+        if len(arm["arr"]) + len(arm["ret"]) + len(arm["ret2"]) != 1:
             problems.append("curve dispatch of find_bn254_specific_circuits: arm %s not recognised" % arm["variant"])
             continue
         dispatch.append((arm["variant"], arm["arr"][0]["array"] if arm["arr"] else None))
     res["dispatch"] = dispatch
     if sorted(d[0] for d in dispatch) != sorted(VARIANTS):
         problems.append("curve dispatch of find_bn254_specific_circuits not recognised: %r" % (dispatch,))
+    e = env.get("bn254::visit_statement")
+    if e and not _one_of(e, "ls", "sl", "bn254::visit_statement (is_local / is_signal test)", problems):
+        invalidate("bn254::visit_statement", "the type test is not `is_local() || is_signal()` in either order")
     res["bn254_exact_match"] = "bn254::visit_statement" in env
     # --- nonstrict_binary_conversion.rs --------------------------------------
     e = env.get("nonstrict::find_nonstrict_binary_conversion")
@@ -150,6 +178,15 @@ def parse_sources():
         res["nonstrict_exempt"] = []
         off = None
     e = env.get("nonstrict::visit_statement")
+    if e and not _one_of(e, "ls", "sl", "nonstrict::visit_statement (is_local / is_signal test)", problems):
+        invalidate("nonstrict::visit_statement", "the type test is not `is_local() || is_signal()` in either order")
+        e = None
+    if e:
+        for gd in e["guards"]:
+            gd["op"] = _cmp(gd, "nonstrict::visit_statement, block of %r" % gd["lit"], problems)
+        if any(gd["op"] is None for gd in e["guards"]):
+            invalidate("nonstrict::visit_statement", "a guard comparison was not recognised")
+            e = None
     if e:
         # the report builder of each block is pinned to its literal (second audit): `build_num2bits` in the
         # Num2Bits block, `build_bits2num` in the Bits2Num block - a swapped builder changes the message only
@@ -164,10 +201,18 @@ def parse_sources():
         res["nonstrict_guards"] = [("Num2Bits", 1, 0, "CUnrecognised", 0)]
     # --- unconstrained_less_than.rs ------------------------------------------
     e = env.get("lessthan::find_unconstrained_less_than")
+    if e:
+        e["op"] = _cmp(e, "lessthan::find_unconstrained_less_than", problems)
+        if e["op"] is None:
+            invalidate("lessthan::find_unconstrained_less_than", "the guard comparison was not recognised")
+            e = None
     helpers = [a[3] for a in S.ANCHORS["lessthan"] if a[3] not in ("lessthan::find_unconstrained_less_than",
                                                                     "lessthan::update_components", "lessthan::update_inputs")]
     res["lessthan_guard"] = (CMP[e["op"]], _offset(e)) if e and all(h in env for h in helpers) else ("CUnrecognised", 0)
     ec, ei = env.get("lessthan::update_components"), env.get("lessthan::update_inputs")
+    if ec and not _one_of(ec, "ls", "sl", "lessthan::update_components (is_local / is_signal test)", problems):
+        invalidate("lessthan::update_components", "the type test is not `is_local() || is_signal()` in either order")
+        ec = None
     if ec and ei and ec["rc_idx"] == 0:
         res["lessthan_literals"] = ((ec["lt_name"], ec["lt_arity"]), (ec["rc_name"], ec["rc_arity"]), ei["rc_signal"], ei["lt_signal"])
     else:
@@ -183,7 +228,10 @@ def parse_sources():
         # `#[default]` is pinned to the first variant by the template; that variant must be the documented default
         invalidate("constants::Curve", "`#[default]` sits on variant %s, the documented default curve is BN254" % e["first"])
         e = None
-    res["enum_variants"] = [e["first"]] + [v["variant"] for v in e["variants"]] if e else []
+    if e and not e["c0"] and (e["variants"] or e["last"]):
+        invalidate("constants::Curve", "enum Curve: no comma after the first variant")
+        e = None
+    res["enum_variants"] = [e["first"]] + [v["variant"] for v in e["variants"]] + [v["variant"] for v in e["last"]] if e else []
     if sorted(res["enum_variants"]) != sorted(VARIANTS):
         problems.append("enum Curve no longer has exactly the variants %s: %r" % (VARIANTS, res["enum_variants"]))
     e = env.get("constants::Curve::prime")
@@ -229,7 +277,7 @@ def parse_doc():
             rows.append((name, marks))
     cols, bits = [], []
     for h in (header or [])[1:]:
-        m = re.match(r"(.*?)\s*\((\d+) bits\)", h)
+        m = re.match(r"(.*?)\s*\((\d+)[ -]?bits?\)", h)
         label = (m.group(1) if m else h).strip()
         key = re.sub(r"[^A-Z0-9]", "", label.upper())
         var = {"GOLDILOCKS": "Goldilocks", "BLS12381": "Bls12_381", "BN254": "Bn254"}.get(key)
@@ -238,7 +286,7 @@ def parse_doc():
             var = label
         cols.append(var)
         bits.append(int(m.group(2)) if m else -1)
-    m = re.search(r"BN254 scalar field \(a (\d+)-bit prime field\)", text)
+    m = re.search(r"BN254 scalar field \(an? (\d+)[ -]bit prime field\)", text)
     default_bits = int(m.group(1)) if m else -1
     cli = src("cli")
     m = re.search(r"///\s*Set curve \(([^)]*)\)", cli)
@@ -262,11 +310,63 @@ NEAR_MISS_ASCII = [
     "BN254BLS12_381", "BN254,BLS12_381", "Bn254;", "0", "default", "Curve::Bn254", "Bls12_381_", "_BLS12_381", "bn254.", "'BN254'",
     "SECP256K1", "ED25519", "PALLAS", "VESTA", "GRUMPKIN", "@N254", "`n254", "BN254{", "[N254", "bLS12^381",
 ]
-NON_ASCII = [
-    "blſ12_381", "BLſ12_381", "goldılocks", "GOLDıLOCKS", "goldİlocks", "bn２５４",
-    "ＢＮ254", "ｂｎ254", "blß12_381", "bK254", "goldilocKs", "GOLDILOCKS", "goldiloсks",
-    "bn254̇", "вn254", "blѕ12_381", "ﬁ", "goldilockſ", "BLS12_381 ", " BN254",
-]
+# Non-ASCII near misses (third audit).  Under the previous normaliser, str::to_uppercase, the ones built
+# from a dotless i (U+0131 -> I) or a long s (U+017F -> S) WERE accepted - the genuine defect repaired in
+# /repo; the sweep keeps all of them so that a regression is reported with the spelling as failing input.
+CONFUSABLE = {
+    "i": ["\u0131", "\u0130", "\u00ec", "\u0456", "\u2170"],      # dotless i, I with dot, i grave, Cyrillic i, roman numeral
+    "s": ["\u017f", "\u00df", "\u0455", "\ua731"],                # long s, sharp s, Cyrillic dze, small capital s
+    "k": ["\u212a", "\u043a", "\u03ba"],                          # Kelvin sign, Cyrillic ka, Greek kappa
+    "b": ["\u0432", "\u0253"], "n": ["\u0578", "\u0274"], "l": ["\u217c", "\u04cf"], "o": ["\u043e", "\u03bf"],
+    "g": ["\u0261"], "d": ["\u217e"], "c": ["\u0441", "\u217d"],
+}
+LIGATURES = ["\ufb00", "\ufb01", "\ufb02", "\ufb03", "\ufb04", "\ufb05", "\ufb06"]
+COMBINING = ["\u0307", "\u0301", "\u200d", "\ufe0f"]
+
+
+def fullwidth(ch):
+    return chr(ord(ch) + 0xFEE0) if "!" <= ch <= "~" else ch
+
+
+def non_ascii_universe():
+    out = []
+
+    def add(s):
+        if s not in out and not s.isascii():
+            out.append(s)
+    for v in VARIANTS:
+        for name in (CANON[v], CANON[v].lower()):
+            for pos, ch in enumerate(name):
+                for sub in CONFUSABLE.get(ch.lower(), []):
+                    add(name[:pos] + sub + name[pos + 1:])
+                add(name[:pos] + fullwidth(ch) + name[pos + 1:])            # one fullwidth letter / digit / underscore
+                for cm in COMBINING[:2]:
+                    add(name[:pos + 1] + cm + name[pos + 1:])               # a combining mark after the letter
+            add("".join(fullwidth(c) for c in name))                        # all fullwidth
+            for cm in COMBINING:
+                add(name + cm)
+                add(cm + name)
+            add(name + "\u00a0")
+            add("\ufeff" + name)
+        low = CANON[v].lower()
+        # every subset of the letters i / s replaced by dotless i / long s (these upper-case to the name)
+        pos = [k for k, ch in enumerate(low) if ch in "is"]
+        for mask in range(1, 2 ** len(pos)):
+            s = list(low)
+            for b, k in enumerate(pos):
+                if mask >> b & 1:
+                    s[k] = "\u0131" if low[k] == "i" else "\u017f"
+            add("".join(s))
+            add("".join(s).capitalize())
+    for s in ("bl\u00df12_381", "goldilock\u00df", "BL\u00df12_381", "\ufb01", "goldilock\ufb06", "gol\ufb04ocks", "bl\ufb0612_381",
+              "\u0432n254", "bn\uff12\uff15\uff14", "\uff22\uff2e254", "bn254\u0307", "gold\u0130locks", "goldilo\u0441ks"):
+        add(s)
+    for lg in LIGATURES:
+        add("goldilock" + lg)
+    return out
+
+
+NON_ASCII = non_ascii_universe()
 
 
 def spelling_universe():
@@ -274,6 +374,7 @@ def spelling_universe():
     for v in VARIANTS:
         uni += case_variants(CANON[v])
     uni += NEAR_MISS_ASCII
+    uni += NON_ASCII
     seen, out = set(), []
     for s in uni:
         if s not in seen:
@@ -295,6 +396,18 @@ def exec_from_str(binary, spellings):
             raise common.BuildError("curves parse: output out of step", line)
         res.append(r)
     return res
+
+
+def exec_upper_table(binary):
+    """[(code point, ASCII text)] for every character >= 128 whose upper-casing is ASCII text (executed)."""
+    rc, out, err = common.sh([binary, "upper-table"], timeout=120)
+    if rc != 0:
+        raise common.BuildError("curves upper-table failed", err[-2000:])
+    table = []
+    for line in out.splitlines():
+        cp, u = line.split(" ", 1)
+        table.append((int(cp), u))
+    return table
 
 
 def exec_primes(binary):
@@ -320,6 +433,13 @@ def cstr(s):
     return '"' + s.replace('"', '""') + '"'
 
 
+def cbytes(s):
+    """Any text as a Coq string: the sequence of its UTF-8 bytes (a Coq string is a list of bytes)."""
+    if printable(s):
+        return cstr(s)
+    return "(bs [%s])" % "; ".join("%d" % b for b in s.encode("utf-8"))
+
+
 def clist(items, per_line=6, indent="  "):
     if not items:
         return "[]"
@@ -335,7 +455,7 @@ def cz(n):
 
 HEAD = ("(* GENERATED by lib/props/C11.py (gen) from the current tree of the analysed\n"
         "   repository on every run - do not edit, not under version control.\n   Source: %s *)\n"
-        "From Coq Require Import String List ZArith.\nImport ListNotations.\nLocal Open Scope string_scope.\nLocal Open Scope Z_scope.\n\n")
+        "From Coq Require Import String Ascii List ZArith.\nImport ListNotations.\nLocal Open Scope string_scope.\nLocal Open Scope Z_scope.\n\n")
 
 
 def printable(s):
@@ -430,12 +550,19 @@ def gen(ctx):
         ["(%s, (%s, (%d, %d)))" % (cstr(v), cstr(pt[v]["stored"]), pt[v]["prime"], pt[v]["size"]) for v in VARIANTS if v in pt], per_line=1)
     common.write_if_changed(os.path.join(g, "Primes.v"), t)
     # --- CurveNames.v (executed) ---
-    uni = [s for s in spelling_universe() if printable(s)]
+    uni = spelling_universe()
     res = exec_from_str(binary, uni)
-    t = HEAD % "execution of <Curve as FromStr>::from_str through harness/src/bin/curves.rs"
-    t += "(* (spelling, accepted variant | None = rejected); %d spellings: every case variant of the three names + near misses *)\n" % len(uni)
+    ut = exec_upper_table(binary)
+    t = HEAD % "execution of <Curve as FromStr>::from_str and of char::to_uppercase through harness/src/bin/curves.rs"
+    t += "(* a text given by its UTF-8 bytes *)\nDefinition bs (l : list Z) : string := string_of_list_ascii (List.map (fun b => ascii_of_N (Z.to_N b)) l).\n\n"
+    t += ("(* (code point, upper-cased text): EVERY character >= 128 whose char::to_uppercase() is ASCII text, obtained by\n"
+          "   executing it on all code points; the only way a non-ASCII spelling can upper-case to an ASCII name *)\n")
+    t += "Definition unicode_upper_ascii : list (Z * string) := %s.\n\n" % clist(["(%d, %s)" % (cp, cstr(u)) for cp, u in ut], per_line=4)
+    t += ("(* (spelling, accepted variant | None = rejected); %d spellings: every case variant of the three names, ASCII near\n"
+          "   misses and %d non-ASCII near misses (dotless i, long s, Kelvin sign, fullwidth, combining marks, ligatures) *)\n"
+          % (len(uni), sum(1 for s in uni if not s.isascii())))
     t += "Definition curve_name_table : list (string * option string) := %s.\n" % clist(
-        ["(%s, %s)" % (cstr(s), "None" if r == "reject" else "Some " + cstr(r)) for s, r in zip(uni, res)], per_line=4)
+        ["(%s, %s)" % (cbytes(s), "None" if r == "reject" else "Some " + cstr(r)) for s, r in zip(uni, res)], per_line=4)
     common.write_if_changed(os.path.join(g, "CurveNames.v"), t)
     ctx.c11 = {"sources": ps, "doc": pd, "primes": pt, "from_str": dict(zip(uni, res))}
     return ctx.c11
@@ -454,19 +581,54 @@ def q(s):
     return '"' + s.replace('"', '""') + '"'
 
 
-def coq_arg(a):
-    """int -> VField, None -> VUnknown, bool -> VBool, str -> raw Gallina (may mention the curve `c`)."""
-    if a is None:
-        return "VUnknown"
-    if a is True or a is False:
-        return "(VBool %s)" % ("true" if a else "false")
-    if isinstance(a, int):
-        return "(VField (%d)%%Z)" % a
-    return a
+# ---------------------------------------------------------------------------
+# the model statements, derived from the tool's IR (third audit)
+# ---------------------------------------------------------------------------
+TK = {"local": "TLocal", "signal": "TSignal", "component": "TComponent", "none": "TNone"}
+
+
+def coq_argval(a):
+    """arg.value() as dumped by `curves ir`: FieldElement / Boolean / unknown."""
+    if a["v"] == "f":
+        return "(VField (%d)%%Z)" % int(a["n"])
+    if a["v"] == "b":
+        return "(VBool %s)" % ("true" if a["b"] else "false")
+    return "VUnknown"
 
 
 def coq_acc(acc):
-    return "[" + "; ".join("AIndex (%d)%%Z" % a if isinstance(a, int) else "AField %s" % q(a) for a in acc) + "]"
+    """[["i", identity of the index expression] | ["f", signal name]]"""
+    return "[" + "; ".join(("AIndex %s" if k == "i" else "AField %s") % q(x) for k, x in acc) + "]"
+
+
+def coq_stmt(s):
+    """One statement of the IR dump -> Gallina (Model.Curves.stmt)."""
+    if s["k"] == "assign":
+        c = s["call"]
+        rhs = "ROther" if c is None else "(RCall (mkCall %s [%s]))" % (q(c["name"]), "; ".join(coq_argval(a) for a in c["args"]))
+        return "SAssign %s %s %s %s" % (TK[s["tk"]], q(s["var"]), coq_acc(s["acc"]), rhs)
+    if s["k"] == "constrain":
+        return "SConstrain %s %s %s" % (q(s["var"]), coq_acc(s["acc"]) if s["update"] else "[]", q(s["value"]))
+    return "SOther"
+
+
+def ir_programs(binary, paths):
+    """{(file name, curve variant): dump} - every generated file through the tool's own front end
+    (AnalysisRunner::with_files), once per curve: the statements the three passes visit, in their
+    order, with the type knowledge, the value knowledge of call arguments and the structural
+    identity of constrained values as the TOOL computed them."""
+    jobs = [(name, cv) for name in paths for cv in VARIANTS]
+    lines = ["%s %s" % (cv, paths[name].encode("utf-8").hex()) for name, cv in jobs]
+    out = common.run_lines(binary, ["ir"], lines, shards=common.NPROC)
+    if len(out) != len(jobs):
+        raise common.BuildError("curves ir: %d results for %d files" % (len(out), len(jobs)), "\n".join(out[:3])[:1000])
+    res = {}
+    for job, line in zip(jobs, out):
+        try:
+            res[job] = json.loads(line)
+        except ValueError:
+            res[job] = {"error": "unreadable dump: " + line[:200]}
+    return res
 
 
 class Tmpl:
@@ -482,14 +644,17 @@ class Tmpl:
         self.body.append((text, None))
 
     def assign(self, text, tk, var, acc, tname, args, checks=()):
-        """`var[acc] = tname(args)`; args are model argument values."""
-        st = {"coq": "SAssign %s %s %s (RCall (mkCall %s [%s]))" % (tk, q(var), coq_acc(acc), q(tname), "; ".join(coq_arg(a) for a in args)),
+        """`var[acc] = tname(args)`.  Third audit: the model statement is no longer written here - it is DERIVED
+        from the tool's IR (harness `curves ir`, see ir_programs).  tk / var / tname / args are kept as the
+        generator's EXPECTATION of that abstraction and compared with the derived one (expectation_mismatches)."""
+        st = {"expect": {"k": "assign", "tk": tk, "var": var, "name": tname,
+                         "args": [a if (a is None or isinstance(a, (bool, int))) else "curve-dependent" for a in args]},
               "checks": list(checks), "text": text.strip()}
         self.stmts.append(st)
         self.body.append((text, st))
 
     def constrain(self, text, var, acc, value):
-        st = {"coq": "SConstrain %s %s %s" % (q(var), coq_acc(acc), q(value)), "checks": [], "text": text.strip()}
+        st = {"expect": {"k": "constrain", "var": var, "shown": value, "acc_len": len(acc)}, "checks": [], "text": text.strip()}
         self.stmts.append(st)
         self.body.append((text, st))
 
@@ -501,8 +666,8 @@ class Tmpl:
 
 
 class CFile:
-    def __init__(self, name, pre=()):
-        self.name, self.pre, self.tmpls = name, list(pre), []
+    def __init__(self, name, pre=(), post=()):
+        self.name, self.pre, self.post, self.tmpls = name, list(pre), list(post), []
 
     def add(self, t):
         self.tmpls.append(t)
@@ -518,6 +683,7 @@ class CFile:
                 if st is not None:
                     st["line"] = len(lines)
             lines.append("}")
+        lines += self.post
         return "\n".join(lines) + "\n"
 
 
@@ -576,6 +742,184 @@ def big(v):
     """A literal size as the tool sees it: reduced modulo the prime of the curve.
     -> (model argument (raw Gallina), oracle size (function of the curve variant))"""
     return "(VField (Z.modulo (%d) (prime c)))" % v, (lambda cv, v=v: v % DOC_PRIME[cv])
+
+
+def forms_files(ctx):
+    """The forms in which a value reaches a LessThan / Num2Bits input.  The oracle entries (lt_value) state the
+    documented semantics where it is clear: a value is range-checked when a Num2Bits(k) with 2^k - 1 <= p/2 is fed
+    the SAME expression (syntactically: same operators, same operands, same indices).  Forms the pass does not track
+    at all (`<--`, an array literal, the inputs of an anonymous component, a range check in another loop) carry no
+    oracle entry: the property speaks of what counts as range-checked, not of which inputs are found; there the
+    comparison is model (derived from the tool's IR) against the binary."""
+    pre = ["template Num2Bits(n) { signal input in; signal output out[n]; out[0] <== in; }",
+           "template LessThan(n) { signal input in[2]; signal output out; out <== in[0]; }"]
+    files = []
+    f = CFile("lt_forms", pre=pre)
+    good, bad = 20, 300
+    for vi, var in enumerate(VARIANTS):
+        b = DOC_PRIME[var].bit_length()
+        for (g, w) in ((good, bad), (b - 2, b - 1)):
+            u = "%d_%d" % (vi, g)            # unique suffix of the names of this template
+            t = f.add(Tmpl("Forms%s" % u, "n"))
+            for nm in ("in", "p", "q"):
+                t.raw("signal input %s%s[4];" % (nm, u))
+            t.raw("signal input m%s[2][3];" % u)
+            for nm in "abcdefgh":
+                t.raw("signal input %s%s;" % (nm, u))
+            t.raw("signal input e2%s[2];" % u)
+            t.raw("signal output o%s;" % u)
+            cnt = [0]
+
+            def n2b(k, value_text, shown, signal="in", arrow="<=="):
+                cnt[0] += 1
+                c = "n%s_%d" % (u, cnt[0])
+                t.assign("component %s = Num2Bits(%d);" % (c, k), "TComponent", c, [], "Num2Bits", [k], checks=[("nonstrict", "Num2Bits", k)])
+                if arrow == "==>":
+                    t.constrain("%s ==> %s.%s;" % (value_text, c, signal), c, [signal], shown)
+                elif arrow == "<--":
+                    t.raw("%s.%s <-- %s;" % (c, signal, value_text))
+                else:
+                    t.constrain("%s.%s <== %s;" % (c, signal, value_text), c, [signal], shown)
+
+            def lt(pairs, arrow="<=="):
+                """pairs: [(index, value text, printed form)]"""
+                cnt[0] += 1
+                c = "l%s_%d" % (u, cnt[0])
+                t.assign("component %s = LessThan(8);" % c, "TComponent", c, [], "LessThan", [8])
+                for idx, value_text, shown in pairs:
+                    if arrow == "==>":
+                        t.constrain("%s ==> %s.in[%d];" % (value_text, c, idx), c, ["in", idx], shown)
+                    elif arrow == "<--":
+                        t.raw("%s.in[%d] <-- %s;" % (c, idx, value_text))
+                    else:
+                        t.constrain("%s.in[%d] <== %s;" % (c, idx, value_text), c, ["in", idx], shown)
+            # array elements: the range check is on element 0, elements 0 and 1 are compared
+            n2b(g, "in%s[0]" % u, "in%s[0]" % u)
+            lt([(0, "in%s[0]" % u, "in%s[0]" % u), (1, "in%s[1]" % u, "in%s[1]" % u)])
+            t.lt_value("in%s[0]" % u, [g])
+            t.lt_value("in%s[1]" % u, [])
+            # ... an insufficient check on element 2, a sufficient one on element 3
+            n2b(w, "in%s[2]" % u, "in%s[2]" % u)
+            n2b(g, "in%s[3]" % u, "in%s[3]" % u)
+            lt([(0, "in%s[2]" % u, "in%s[2]" % u), (1, "in%s[3]" % u, "in%s[3]" % u)])
+            t.lt_value("in%s[2]" % u, [w])
+            t.lt_value("in%s[3]" % u, [g])
+            # two-dimensional elements that differ in one index
+            n2b(g, "m%s[1][2]" % u, "m%s[1][2]" % u)
+            lt([(0, "m%s[1][2]" % u, "m%s[1][2]" % u), (1, "m%s[1][1]" % u, "m%s[1][1]" % u)])
+            t.lt_value("m%s[1][2]" % u, [g])
+            t.lt_value("m%s[1][1]" % u, [])
+            lt([(0, "m%s[0][2]" % u, "m%s[0][2]" % u)])
+            t.lt_value("m%s[0][2]" % u, [])
+            # compound values: same operands, another operator
+            a, bb, c, d, e, ff, gg, h = ["%s%s" % (nm, u) for nm in "abcdefgh"]
+            n2b(g, "%s - %s" % (a, bb), "(%s - %s)" % (a, bb))
+            lt([(0, "%s + %s" % (a, bb), "(%s + %s)" % (a, bb)), (1, "%s - %s" % (a, bb), "(%s - %s)" % (a, bb))])
+            t.lt_value("(%s + %s)" % (a, bb), [])
+            t.lt_value("(%s - %s)" % (a, bb), [g])
+            lt([(0, "%s * %s" % (a, bb), "(%s * %s)" % (a, bb)), (1, "%s - %s" % (bb, a), "(%s - %s)" % (bb, a))])
+            t.lt_value("(%s * %s)" % (a, bb), [])
+            t.lt_value("(%s - %s)" % (bb, a), [])
+            # compound values over array elements: same array, other index
+            n2b(g, "p%s[0] + q%s[1]" % (u, u), "(p%s[0] + q%s[1])" % (u, u))
+            lt([(0, "p%s[0] + q%s[1]" % (u, u), "(p%s[0] + q%s[1])" % (u, u)), (1, "p%s[1] + q%s[1]" % (u, u), "(p%s[1] + q%s[1])" % (u, u))])
+            t.lt_value("(p%s[0] + q%s[1])" % (u, u), [g])
+            t.lt_value("(p%s[1] + q%s[1])" % (u, u), [])
+            # prefix operator
+            n2b(g, "-%s" % c, "-(%s)" % c)
+            lt([(0, "-%s" % c, "-(%s)" % c), (1, c, c)])
+            t.lt_value("-(%s)" % c, [g])
+            t.lt_value(c, [])
+            # the reversed arrow is the same constraint
+            n2b(g, d, d, arrow="==>")
+            lt([(0, d, d)], arrow="==>")
+            t.lt_value(d, [g])
+            n2b(w, e, e, arrow="==>")
+            lt([(1, e, e)], arrow="==>")
+            t.lt_value(e, [w])
+            # `<--` is not a constraint: neither the check nor the comparison input is tracked (model against binary);
+            # the constrained second input is reported
+            n2b(g, "e2%s[0]" % u, "e2%s[0]" % u, arrow="<--")
+            cnt[0] += 1
+            c4 = "l%s_%d" % (u, cnt[0])
+            t.assign("component %s = LessThan(8);" % c4, "TComponent", c4, [], "LessThan", [8])
+            t.raw("%s.in[0] <-- e2%s[0];" % (c4, u))
+            t.constrain("%s.in[1] <== e2%s[1];" % (c4, u), c4, ["in", 1], "e2%s[1]" % u)
+            t.lt_value("e2%s[1]" % u, [])
+            # an array literal and an anonymous component: the inputs are not tracked (model against binary)
+            cnt[0] += 1
+            c5 = "l%s_%d" % (u, cnt[0])
+            t.assign("component %s = LessThan(8);" % c5, "TComponent", c5, [], "LessThan", [8])
+            t.constrain("%s.in <== [%s, %s];" % (c5, ff, gg), c5, ["in"], "[%s, %s]" % (ff, gg))
+            t.raw("signal an%s <== LessThan(8)([%s, %s]);" % (u, ff, gg))
+            t.raw("signal am%s[%d] <== Num2Bits(%d)(%s);" % (u, max(g, 1), g, ff))
+            # inputs inside a loop: check and comparison in the same iteration
+            for nm in ("fa", "fb", "fc"):
+                t.raw("signal input %s%s[3];" % (nm, u))
+            t.raw("component nl%s[3];" % u)
+            t.raw("component ll%s[3];" % u)
+            t.raw("component nw%s[3];" % u)
+            t.raw("component lw%s[3];" % u)
+            t.raw("for (var i = 0; i < 3; i++) {")
+            t.assign("  nl%s[i] = Num2Bits(%d);" % (u, g), "TComponent", "nl" + u, ["i"], "Num2Bits", [g], checks=[("nonstrict", "Num2Bits", g)])
+            t.constrain("  nl%s[i].in <== fa%s[i];" % (u, u), "nl" + u, ["i", "in"], "fa%s[i]" % u)
+            t.assign("  ll%s[i] = LessThan(8);" % u, "TComponent", "ll" + u, ["i"], "LessThan", [8])
+            t.constrain("  ll%s[i].in[0] <== fa%s[i];" % (u, u), "ll" + u, ["i", "in", 0], "fa%s[i]" % u)
+            t.assign("  nw%s[i] = Num2Bits(%d);" % (u, w), "TComponent", "nw" + u, ["i"], "Num2Bits", [w], checks=[("nonstrict", "Num2Bits", w)])
+            t.constrain("  nw%s[i].in <== fb%s[i];" % (u, u), "nw" + u, ["i", "in"], "fb%s[i]" % u)
+            t.assign("  lw%s[i] = LessThan(8);" % u, "TComponent", "lw" + u, ["i"], "LessThan", [8])
+            t.constrain("  lw%s[i].in[1] <== fb%s[i];" % (u, u), "lw" + u, ["i", "in", 1], "fb%s[i]" % u)
+            t.raw("}")
+            t.lt_value("fa%s[i]" % u, [g])
+            t.lt_value("fb%s[i]" % u, [w])
+            # ... the check in one loop, the comparison in another: other index variable, not matched (model against binary)
+            t.raw("component nm%s[3];" % u)
+            t.raw("component lm%s[3];" % u)
+            t.raw("for (var i = 0; i < 3; i++) {")
+            t.assign("  nm%s[i] = Num2Bits(%d);" % (u, g), "TComponent", "nm" + u, ["i"], "Num2Bits", [g], checks=[("nonstrict", "Num2Bits", g)])
+            t.constrain("  nm%s[i].in <== fc%s[i];" % (u, u), "nm" + u, ["i", "in"], "fc%s[i]" % u)
+            t.raw("}")
+            t.raw("for (var j = 0; j < 3; j++) {")
+            t.assign("  lm%s[j] = LessThan(8);" % u, "TComponent", "lm" + u, ["j"], "LessThan", [8])
+            t.constrain("  lm%s[j].in[0] <== fc%s[j];" % (u, u), "lm" + u, ["j", "in", 0], "fc%s[j]" % u)
+            t.raw("}")
+            # a component name declared again in an inner block: two components
+            t.assign("component sh%s = Num2Bits(%d);" % (u, w), "TComponent", "sh" + u, [], "Num2Bits", [w], checks=[("nonstrict", "Num2Bits", w)])
+            t.constrain("sh%s.in <== %s;" % (u, gg), "sh" + u, ["in"], gg)
+            t.raw("if (n == 1) {")
+            t.assign("  component sh%s = Num2Bits(%d);" % (u, g), "TComponent", "sh" + u, [], "Num2Bits", [g], checks=[("nonstrict", "Num2Bits", g)])
+            t.constrain("  sh%s.in <== %s;" % (u, h), "sh" + u, ["in"], h)
+            t.raw("}")
+            lt([(0, gg, gg), (1, h, h)])
+            t.lt_value(gg, [w])
+            t.lt_value(h, [g])
+            # hexadecimal sizes
+            for k in (g, w, 253, 254):
+                cnt[0] += 1
+                cx = "x%s_%d" % (u, cnt[0])
+                t.assign("component %s = Num2Bits(0x%X);" % (cx, k), "TComponent", cx, [], "Num2Bits", [k], checks=[("nonstrict", "Num2Bits", k)])
+                cnt[0] += 1
+                cx = "x%s_%d" % (u, cnt[0])
+                t.assign("component %s = Bits2Num(0x%x);" % (cx, k), "TComponent", cx, [], "Bits2Num", [k], checks=[("nonstrict", "Bits2Num", k)])
+            t.raw("o%s <== %s;" % (u, a))
+    files.append(f)
+    # a file WITH a main component (the parser returns a program, not a library): the definitions are analysed
+    # as before; the instantiation in the main component itself is the subject of main_component_probe
+    f = CFile("with_main", pre=pre, post=["component main = Num2Bits(254);"])
+    t = f.add(Tmpl("WithMain"))
+    t.raw("signal input a;")
+    t.raw("signal input b;")
+    t.assign("component n = Num2Bits(253);", "TComponent", "n", [], "Num2Bits", [253], checks=[("nonstrict", "Num2Bits", 253)])
+    t.assign("component m = Num2Bits(254);", "TComponent", "m", [], "Num2Bits", [254], checks=[("nonstrict", "Num2Bits", 254)])
+    t.assign("component s = Sign();", "TComponent", "s", [], "Sign", [], checks=[("bn254", "Sign")])
+    t.constrain("n.in <== a;", "n", ["in"], "a")
+    t.assign("component l = LessThan(8);", "TComponent", "l", [], "LessThan", [8])
+    t.constrain("l.in[0] <== a;", "l", ["in", 0], "a")
+    t.constrain("l.in[1] <== b;", "l", ["in", 1], "b")
+    t.lt_value("a", [253])
+    t.lt_value("b", [])
+    files.append(f)
+    return files
 
 
 def build_files(ctx, doc_rows):
@@ -708,7 +1052,7 @@ def build_files(ctx, doc_rows):
                  ("126 | 128", 254), ("255 ^ 2", 253), ("255 ^ 1", 254), ("512 >> 1", 256), ("506 >> 1", 253),
                  ("-(-253)", 253), ("-(-254)", 254), ("(1 == 1) ? 253 : 300", 253), ("(1 == 2) ? 253 : 300", 300),
                  ("506 / 2", 253), ("508 / 2", 254), ("253 * 1", 253), ("127 * 2", 254), ("300 - 47", 253), ("300 - 46", 254),
-                 ("!0", True), ("3 < 4", True), ("253 == 253", True)]
+                 ("!0", None), ("3 < 4", True), ("253 == 253", True)]   # `!0`: not folded (0 is a field element, not a Boolean)
         for expr, val in forms:
             v = "s%d" % i
             i += 1
@@ -894,7 +1238,13 @@ def build_files(ctx, doc_rows):
     t.lt_value("x3", [])
     t.raw("o <== w0;")
     files.append(f)
-    # 10.. seeded random mixtures (names, sizes, LessThan inputs with several range checks)
+    # 9b. the forms of a LessThan / Num2Bits input (third audit): array elements, compound expressions that differ
+    # in an operator or in an index only, prefix operators, `==>`, `<--`, array literals, anonymous components,
+    # inputs inside loops, shadowed component names, hexadecimal sizes, a main component
+    files += forms_files(ctx)
+    # 10.. seeded random mixtures (names, sizes, LessThan inputs with several range checks; the values are scalar
+    # names, array elements and compound expressions over a small pool, so that structurally different values
+    # with the same operands / the same array meet in one definition)
     nrand = 2 if ctx.tier == "quick" else 12
     top = 300 if ctx.tier == "quick" else 1200
     rng = ctx.rng
@@ -902,9 +1252,31 @@ def build_files(ctx, doc_rows):
         f = CFile("random_%d" % fi)
         for ti in range(2):
             t = f.add(Tmpl("R%d_%d" % (fi, ti), "n"))
-            nsig = 40
+            nsig = 12
             for i in range(nsig):
                 t.raw("signal input r%d_%d;" % (ti, i))
+            t.raw("signal input ra%d[6];" % ti)
+            t.raw("signal input rb%d[3][2];" % ti)
+
+            def value():
+                """(circom text, printed form) of a random value expression"""
+                s = lambda: "r%d_%d" % (ti, rng.randrange(nsig))
+                kind = rng.choice(["s", "s", "s", "a", "a", "m", "op", "op", "neg"])
+                if kind == "s":
+                    x = s()
+                    return x, x
+                if kind == "a":
+                    x = "ra%d[%d]" % (ti, rng.randrange(6))
+                    return x, x
+                if kind == "m":
+                    x = "rb%d[%d][%d]" % (ti, rng.randrange(3), rng.randrange(2))
+                    return x, x
+                if kind == "neg":
+                    x = s()
+                    return "-%s" % x, "-(%s)" % x
+                a, b = rng.choice([(s(), s()), ("r%d_0" % ti, "r%d_1" % ti), ("ra%d[0]" % ti, "ra%d[1]" % ti)])
+                op = rng.choice(["+", "-", "*"])
+                return "%s %s %s" % (a, op, b), "(%s %s %s)" % (a, op, b)
             checks_of = {}
             for i in range(90):
                 kind = rng.choice(["name", "name", "n2b", "b2n", "lt", "lt", "lt"])
@@ -919,19 +1291,19 @@ def build_files(ctx, doc_rows):
                     t.assign("component %s = %s(%s);" % (v, tn, "n" if n is None else n), "TComponent", v, [], tn, [arg],
                              checks=[("nonstrict", tn, sz)])
                 else:
-                    w = "r%d_%d" % (ti, rng.randrange(nsig))
+                    wt, w = value()
                     if rng.random() < 0.5:
                         b = DOC_PRIME[rng.choice(VARIANTS)].bit_length()
                         k = rng.choice([rng.randrange(0, top + 1), b - 3, b - 2, b - 1, b, None, rng.choice(sent)])
                         arg, sz = (k, k) if k is None or k <= top else big(k)
                         t.assign("component %s = Num2Bits(%s);" % (v, "n" if k is None else k), "TComponent", v, [], "Num2Bits", [arg],
                                  checks=[("nonstrict", "Num2Bits", sz)])
-                        t.constrain("%s.in <== %s;" % (v, w), v, ["in"], w)
+                        t.constrain("%s.in <== %s;" % (v, wt), v, ["in"], w)
                         checks_of.setdefault(w, {"lt": False, "sizes": []})["sizes"].append(sz)
                     else:
                         t.assign("component %s = LessThan(8);" % v, "TComponent", v, [], "LessThan", [8])
                         idx = rng.randrange(2)
-                        t.constrain("%s.in[%d] <== %s;" % (v, idx, w), v, ["in", idx], w)
+                        t.constrain("%s.in[%d] <== %s;" % (v, idx, wt), v, ["in", idx], w)
                         checks_of.setdefault(w, {"lt": False, "sizes": []})["lt"] = True
             for w, inf in checks_of.items():
                 if inf["lt"]:
@@ -970,25 +1342,32 @@ def run_cli(cli, path, curve_arg, sarif):
     return rc, res, err
 
 
-def model_eval(ctx, files):
-    """Evaluates the three pass models on every template under every curve by
-    vm_compute (one cases file per generated .circom file, in parallel)."""
+DEFTYPE = {"Function": "DFunction", "Template": "DTemplate", "CustomTemplate": "DCustomTemplate"}
+
+
+def model_eval(ctx, names, dumps):
+    """Evaluates the three pass models on every definition of every dumped file under every curve by
+    vm_compute (one cases file per generated .circom file, in parallel).  The abstract programs are the
+    ones derived from the tool's IR.  -> {file name: {(definition index, curve): (r16, r10, r14)}}"""
     rc, out = common.coq_make(["model/Curves.vo", "model/Field.vo"], timeout=900)
     if rc != 0:
         raise common.BuildError("coq build of Model.Curves failed", out[-3000:])
 
-    def one(f):
+    def one(fname):
         v = ["From Coq Require Import ZArith List String.", "Require Import Model.Base Model.Field Model.Curves.",
              "Import ListNotations.", "Open Scope string_scope.", "Open Scope list_scope.", ""]
         order = []
-        for ti, t in enumerate(f.tmpls):
-            v.append("Definition p%d (c : curve) : list stmt := [\n  %s\n]." % (ti, ";\n  ".join(s["coq"] for s in t.stmts)))
-            for cv in VARIANTS:
-                v.append("Eval vm_compute in (List.map Z.of_nat (bn254_reports %s (p%d %s)))." % (cv, ti, cv))
-                v.append("Eval vm_compute in (omap (List.map Z.of_nat) (nonstrict_reports %s %s (p%d %s)))." % (cv, t.deftype, ti, cv))
-                v.append("Eval vm_compute in (lessthan_reports %s (p%d %s))." % (cv, ti, cv))
-                order.append((ti, cv))
-        path = os.path.join(ctx.work, "cases_%s.v" % f.name)
+        for cv in VARIANTS:
+            d = dumps[(fname, cv)]
+            for di, df in enumerate(d.get("defs", [])):
+                if "stmts" not in df:
+                    continue
+                v.append("Definition p%d_%s : list stmt := [\n  %s\n]." % (di, cv, ";\n  ".join(coq_stmt(s) for s in df["stmts"])))
+                v.append("Eval vm_compute in (List.map Z.of_nat (bn254_reports %s p%d_%s))." % (cv, di, cv))
+                v.append("Eval vm_compute in (omap (List.map Z.of_nat) (nonstrict_reports %s %s p%d_%s))." % (cv, DEFTYPE[df["kind"]], di, cv))
+                v.append("Eval vm_compute in (lessthan_reports %s p%d_%s)." % (cv, di, cv))
+                order.append((di, cv))
+        path = os.path.join(ctx.work, "cases_%s.v" % fname)
         open(path, "w").write("\n".join(v) + "\n")
         rc, out, err = common.sh(["coqc"] + common.coq_flags() + ["-o", path + "o", path], cwd=common.COQ, timeout=600)
         if rc != 0:
@@ -998,16 +1377,34 @@ def model_eval(ctx, files):
         if len(chunks) != 3 * len(order):
             raise common.BuildError("model evaluation %s: %d results for %d queries" % (path, len(chunks), 3 * len(order)), out[-2000:])
         res = {}
-        for i, (ti, cv) in enumerate(order):
+        for i, key in enumerate(order):
             a, b, c = chunks[3 * i:3 * i + 3]
             r16 = [int(x) for x in re.findall(r"-?\d+", a)]
             r10 = [int(x) for x in re.findall(r"-?\d+", b)] if b.strip().startswith("Ok") else b.strip().split()[0]
             r14 = [m.replace('""', '"') for m in re.findall(r'"((?:[^"]|"")*)"', c)] if c.strip().startswith("Ok") else c.strip().split()[0]
-            res[(ti, cv)] = (r16, r10, r14)
+            res[key] = (r16, r10, r14)
         return res
     with concurrent.futures.ThreadPoolExecutor(max_workers=common.NPROC) as ex:
-        outs = list(ex.map(one, files))
-    return dict(zip([f.name for f in files], outs))
+        outs = list(ex.map(one, names))
+    return dict(zip(names, outs))
+
+
+def model_spellings(ctx, spellings):
+    """Model.Curves.parse_curve on every spelling of the sweep (vm_compute) -> [variant | "reject" | "unmodelled"]."""
+    v = ["From Coq Require Import ZArith List String Ascii.", "Require Import Model.Base Model.Curves Gen.CurveNames.",
+         "Import ListNotations.", "Open Scope string_scope.", "Open Scope list_scope.", "Open Scope Z_scope.", "",
+         "Definition show (r : parse_result) : string := match r with Accepted c => variant_name c | Rejected => \"reject\" | Unmodelled => \"unmodelled\" end.",
+         "Eval vm_compute in (List.map (fun s => show (parse_curve s)) [\n  %s\n])." % ";\n  ".join(cbytes(s) for s in spellings)]
+    path = os.path.join(ctx.work, "cases_spellings.v")
+    open(path, "w").write("\n".join(v) + "\n")
+    rc, out, err = common.sh(["coqc"] + common.coq_flags() + ["-o", path + "o", path], cwd=common.COQ, timeout=600)
+    if rc != 0:
+        raise common.BuildError("model evaluation %s failed" % path, (out + err)[-3000:])
+    body = re.split(r"(?m)^\s*: ", re.split(r"(?m)^\s*= ", out)[1])[0]
+    res = re.findall(r'"([A-Za-z0-9_]*)"', body)
+    if len(res) != len(spellings):
+        raise common.BuildError("model evaluation of the spellings: %d results for %d spellings" % (len(res), len(spellings)), out[-2000:])
+    return res
 
 
 # ---------------------------------------------------------------------------
@@ -1092,7 +1489,7 @@ def sweep_curve_names(ctx, cli, binary):
     if "Bn254" not in default_seen:
         default_failing.append({"input": {"kind": "curve-name", "spelling": None, "note": "no --curve option: the default curve"},
                                 "impl": default_seen[0], "spec": "Bn254"})
-    uni = spelling_universe() + [s for s in NON_ASCII if s not in spelling_universe()]
+    uni = spelling_universe()
 
     def one(args):
         i, s = args
@@ -1106,8 +1503,8 @@ def sweep_curve_names(ctx, cli, binary):
             for (i, _), r in zip(chunk, ex.map(one, chunk)):
                 obs[i] = r
     harness = exec_from_str(binary, uni)
-    failing, notes, disagree = [], [], []
-    accepted = 0
+    failing, disagree = [], []
+    accepted = non_ascii = 0
     for s, o, h in zip(uni, obs, harness):
         # variant | "reject" | raw text; if two curves behave alike on the probe (only
         # under a mutated table) the spelling is attributed to the one from_str names
@@ -1115,28 +1512,36 @@ def sweep_curve_names(ctx, cli, binary):
         seen = h if h in cands else cands[0]
         if seen != h:
             disagree.append({"spelling": s, "cli": seen, "from_str": h})
-        if printable(s) or s.isascii():
-            want = next((v for v in VARIANTS if s.upper() == CANON[v]), "reject")
-            if seen != want:
-                failing.append({"input": {"kind": "curve-name", "spelling": s}, "impl": seen, "spec": want})
-            if want != "reject":
-                accepted += 1
-        else:
-            uni_want = next((v for v in VARIANTS if s.upper() == CANON[v]), "reject")
-            if seen != "reject" or uni_want != "reject":
-                notes.append({"spelling": s, "cli": seen, "unicode_uppercase_says": uni_want})
-    return {"count": len(uni) + 1, "failing": default_failing + failing, "notes": notes, "disagree": disagree, "problems": problems,
-            "accepted": accepted, "canon_sig": canon_sig, "default_seen": default_seen[0]}
+        # the documented semantics, for EVERY spelling: accepted iff it is a documented name up to the case of
+        # ASCII letters.  A spelling with a character outside ASCII is never one (third audit: such spellings
+        # used to be filed under `notes`; the ones Unicode upper-casing maps to a name were accepted)
+        want = next((v for v in VARIANTS if ascii_upper(s) == CANON[v]), "reject")
+        non_ascii += 0 if s.isascii() else 1
+        for got, where in ((seen, "--curve"), (h, "Curve::from_str")):
+            if got != want:
+                failing.append({"input": {"kind": "curve-name", "spelling": s, "utf8_hex": hexs(s), "through": where}, "impl": got, "spec": want})
+                break
+        if want != "reject":
+            accepted += 1
+    return {"count": len(uni) + 1, "failing": default_failing + failing, "disagree": disagree, "problems": problems,
+            "accepted": accepted, "non_ascii": non_ascii, "canon_sig": canon_sig, "default_seen": default_seen[0],
+            "observed": dict(zip(uni, harness))}
+
+
+def ascii_upper(s):
+    """Upper-casing of the 26 ASCII letters only (the documented case-insensitivity)."""
+    return "".join(chr(ord(c) - 32) if "a" <= c <= "z" else c for c in s)
 
 
 # ---------------------------------------------------------------------------
 # the check
 # ---------------------------------------------------------------------------
-def check_file(f, text, cv, impl, model, doc, shown=None):
+def check_file(f, text, cv, impl, model, dump, doc, shown=None):
     """Compares one CLI run with the model and with the documented semantics.
     `cv` is the curve the model and the oracle are evaluated under; `shown` is what
     the records call the run (`default` = the run had no `--curve` option and is
-    compared under the documented default, BN254).
+    compared under the documented default, BN254).  `dump` is the tool's IR of the file under
+    `cv` (the abstract programs of `model` were derived from it).
     Returns (disagreements, failing inputs, evaluations, nontrivial keys)."""
     dis, fail, nontriv = [], [], set()
     shown = shown or cv
@@ -1152,19 +1557,33 @@ def check_file(f, text, cv, impl, model, doc, shown=None):
         m = re.match(r"`(.*)` needs to be constrained", label)
         i14[m.group(1) if m else "?" + label] += 1
     m16, m10, m14 = Counter(), Counter(), Counter()
-    for ti, t in enumerate(f.tmpls):
-        r16, r10, r14 = model[(ti, cv)]
+    if "defs" not in dump:
+        dis.append({"file": f.name, "curve": shown, "what": "no IR dump of the file: %s" % dump.get("error")})
+    for di, df in enumerate(dump.get("defs", [])):
+        if "stmts" not in df:
+            dis.append({"file": f.name, "curve": shown, "what": "no CFG for definition %s in the IR dump: %s" % (df.get("name"), df.get("error"))})
+            continue
+        stmts = df["stmts"]
+        r16, r10, r14 = model[(di, cv)]
+
+        def line_of(idx):
+            s = stmts[idx]
+            return (s.get("call") or {}).get("line") or s["line"]
         for idx in r16:
-            m16[t.stmts[idx]["line"]] += 1
+            m16[line_of(idx)] += 1
         if isinstance(r10, list):
             for idx, n in enumerate(r10):
                 if n:
-                    m10[t.stmts[idx]["line"]] += n
+                    m10[line_of(idx)] += n
         else:
             dis.append({"file": f.name, "curve": shown, "what": "model of the non-strict pass: " + str(r10)})
         if isinstance(r14, list):
+            first = {}
+            for s in stmts:
+                if s["k"] == "constrain":
+                    first.setdefault(s["value"], s["shown"])
             for v in r14:
-                m14[v] += 1
+                m14[first.get(v, "?" + v)] += 1
         else:
             dis.append({"file": f.name, "curve": shown, "what": "model of the less-than pass: " + str(r14)})
     for rule, a, b in (("CS0016", i16, m16), ("CS0010", i10, m10), ("CS0014", i14, m14)):
@@ -1191,6 +1610,9 @@ def check_file(f, text, cv, impl, model, doc, shown=None):
                         nontriv.add(("CS0016", shown, chk[1]))
                 elif chk[0] == "nonstrict":
                     if cv != "Bn254":
+                        # the property speaks of the default curve only; under the other curves the statement is compared
+                        # model against binary (C11_nonstrict_only_default_curve), not judged: not an evaluation
+                        evals -= 1
                         continue
                     n = size_value(chk[2], cv)
                     want = nonstrict_expected(n)
@@ -1217,6 +1639,122 @@ def check_file(f, text, cv, impl, model, doc, shown=None):
             if any(k is None or callable(s) or abs(k - b) <= 3 for k, s in zip(ks, info["sizes"])) or len(ks) != 1:
                 nontriv.add(("CS0014", shown, v))
     return dis, fail, evals, nontriv
+
+
+def compare_expectation(files, dumps):
+    """The generator states, per generated statement, what it expects the passes to see (type knowledge, template
+    name, argument value knowledge; printed value and access length of a constraint).  Since the third audit the
+    model is fed with the abstraction DERIVED from the tool's IR; the expectation is compared with it and the
+    differences are counted and listed (both sides are machinery, so a difference is information, not a verdict:
+    what is wrong with the TOOL shows in the oracle comparison)."""
+    compared = mism = 0
+    first = []
+    for f in files:
+        dmp = dumps.get((f.name, DOC_DEFAULT), {})
+        by_line = {}
+        for df in dmp.get("defs", []):
+            for s in df.get("stmts", []):
+                if s["k"] == "constrain" or (s["k"] == "assign" and s["call"] is not None):
+                    by_line.setdefault(s["line"], []).append(s)
+        for t in f.tmpls:
+            for st in t.stmts:
+                e = st["expect"]
+                cands = [s for s in by_line.get(st.get("line"), []) if s["k"] == e["k"]]
+                compared += 1
+                ok = False
+                for s in cands:
+                    if e["k"] == "assign":
+                        args = s["call"]["args"]
+                        ok = (TK[s["tk"]] == e["tk"] and s["call"]["name"] == e["name"] and len(args) == len(e["args"]) and all(
+                            x == "curve-dependent" or (x is None and a["v"] == "-") or (isinstance(x, bool) and a["v"] == "b" and a["b"] == x)
+                            or (isinstance(x, int) and not isinstance(x, bool) and a["v"] == "f" and int(a["n"]) == x) for x, a in zip(e["args"], args)))
+                    else:
+                        ok = s["shown"] == e["shown"] and (not s["update"] or len(s["acc"]) == e["acc_len"])
+                    if ok:
+                        break
+                if not ok:
+                    mism += 1
+                    if len(first) < 5:
+                        first.append({"file": f.name, "line": st.get("line"), "statement": st["text"], "expected": e,
+                                      "derived": [{k: v for k, v in s.items() if k != "value"} for s in cands][:2]})
+    return {"statements_compared": compared, "mismatches": mism, "first": first}
+
+
+# the forms the property text, the review and the pass sources speak of: each must occur in the sweep
+FEATURES = ("array_element_value", "compound_value", "prefix_value", "non_literal_index", "assign_signal", "inline_array_value",
+            "anonymous_component", "shadowed_component", "function_definition", "custom_template", "component_array_2d",
+            "unknown_size", "boolean_size", "hex_size", "reversed_constraint_arrow", "main_component", "local_call", "same_operands_other_operator")
+
+
+def features_seen(dumps, texts):
+    n = dict.fromkeys(FEATURES, 0)
+    for (fname, cv), dmp in dumps.items():
+        if cv != DOC_DEFAULT:
+            continue
+        for df in dmp.get("defs", []):
+            n["function_definition"] += df.get("kind") == "Function"
+            n["custom_template"] += df.get("kind") == "CustomTemplate"
+            values = set()
+            for s in df.get("stmts", []):
+                if s["k"] == "constrain":
+                    v = s["value"]
+                    values.add(v)
+                    n["array_element_value"] += v.startswith("(x ") and "[" in v
+                    n["compound_value"] += v.startswith("(i ")
+                    n["prefix_value"] += v.startswith("(p ")
+                    n["inline_array_value"] += v.startswith("(a ")
+                    n["non_literal_index"] += any(k == "i" and not x.startswith("(n ") for k, x in s["acc"])
+                elif s["k"] == "assign":
+                    n["anonymous_component"] += bool(s["call"]) and re.match(r"^%s_\d+_\d+\|" % re.escape(s["call"]["name"]), s["var"]) is not None
+                    n["shadowed_component"] += bool(s["call"]) and s["tk"] == "component" and s["var"].split("|")[1] != ""
+                    n["component_array_2d"] += bool(s["call"]) and len(s["acc"]) >= 2
+                    n["local_call"] += bool(s["call"]) and s["tk"] == "local"
+                    for a in (s["call"] or {}).get("args", []):
+                        n["unknown_size"] += a["v"] == "-"
+                        n["boolean_size"] += a["v"] == "b"
+                elif s.get("what") == "assign-signal":
+                    n["assign_signal"] += 1
+            # two constrained values that differ in an operator only (what `Expression::eq` must tell apart)
+            infix = [v.split(" ", 2) for v in values if v.startswith("(i ")]
+            n["same_operands_other_operator"] += sum(1 for a in infix for b in infix if a[1] < b[1] and a[2] == b[2])
+    for text in texts.values():
+        n["hex_size"] += len(re.findall(r"\(0x[0-9A-Fa-f]+\)", text))
+        n["reversed_constraint_arrow"] += text.count("==>")
+        n["main_component"] += len(re.findall(r"(?m)^component main\b", text))
+    return {k: int(v) for k, v in n.items()}
+
+
+KF_MAIN = "C11-main-component-not-analysed"
+MAIN_PROBES = [
+    # (name, curve argument, source, rule, line of the main component, subject)
+    ("main_num2bits", None,
+     "pragma circom 2.1.0;\ntemplate Num2Bits(n) { signal input in; signal output out[n]; out[0] <== in; }\ncomponent main = Num2Bits(254);\n",
+     "CS0010", 3, "Num2Bits(254)"),
+    ("main_bits2num", "BN254",
+     "pragma circom 2.1.0;\ntemplate Bits2Num(n) { signal input in[n]; signal output out; out <== in[0]; }\ncomponent main = Bits2Num(300);\n",
+     "CS0010", 3, "Bits2Num(300)"),
+    ("main_sign", "BLS12_381",
+     "pragma circom 2.1.0;\ntemplate Sign() { signal input in; signal output sign; sign <== in; }\ncomponent main = Sign();\n",
+     "CS0016", 3, "Sign"),
+]
+
+
+def main_component_probe(ctx, cli):
+    """`component main = T(...)` is an instantiation like any other (third audit: never generated before).
+    -> [failing-input records] for the probes whose instantiation the property flags and the binary does not."""
+    d = os.path.join(ctx.work, "main")
+    os.makedirs(d, exist_ok=True)
+    out = []
+    for name, curve, source, rule, line, subject in MAIN_PROBES:
+        path = os.path.join(d, name + ".circom")
+        open(path, "w").write(source)
+        rc, res, err = run_cli(cli, path, curve, path + ".sarif")
+        got = sum(1 for l, _, _ in res[rule] if l == line)
+        if got != 1:
+            out.append({"input": {"kind": "circom", "file": name, "curve": curve or DEFAULT_RUN, "line": line, "rule": rule, "subject": subject,
+                                  "statement": source.splitlines()[line - 1], "source": source, "main_component": True},
+                        "impl": "%d report(s)" % got, "spec": "flagged: the main component instantiates %s" % subject})
+    return out
 
 
 def corpus_cases():
@@ -1301,12 +1839,15 @@ def run(ctx, proofs):
         return run_cli(cli, os.path.join(d, f.name + ".circom"), CURVE_ARG.get(cv), os.path.join(d, "%s_%s.sarif" % (f.name, cv)))
     with concurrent.futures.ThreadPoolExecutor(max_workers=common.NPROC) as ex:
         impl = dict(zip([(f.name, cv) for f, cv in jobs], ex.map(one, jobs)))
-    model = model_eval(ctx, files)
+    # the abstract programs of the model: derived from the tool's IR of each file under each curve
+    dumps = ir_programs(binary, {f.name: os.path.join(d, f.name + ".circom") for f in files})
+    model = model_eval(ctx, [f.name for f in files], dumps)
     evaluations, nontrivial = 0, set()
     instantiations = sum(len(t.stmts) for f in files for t in f.tmpls)
     default_evaluations = 0
     for f, cv in jobs:
-        dis, fail, ev, nt = check_file(f, texts[f.name], DOC_DEFAULT if cv == DEFAULT_RUN else cv, impl[(f.name, cv)], model[f.name], doc, shown=cv)
+        mcv = DOC_DEFAULT if cv == DEFAULT_RUN else cv
+        dis, fail, ev, nt = check_file(f, texts[f.name], mcv, impl[(f.name, cv)], model[f.name], dumps[(f.name, mcv)], doc, shown=cv)
         if cv == DEFAULT_RUN:
             default_evaluations += ev
         for x in fail:
@@ -1315,6 +1856,22 @@ def run(ctx, proofs):
         failing += fail
         evaluations += ev
         nontrivial |= nt
+    # 1b. Expression::eq / Hash against structural identity, on every pair of key expressions of every definition
+    eq_pairs = 0
+    for (fname, cv), dmp in dumps.items():
+        eq_pairs += dmp.get("eq_pairs", 0)
+        for b in dmp.get("eq_bad", [])[:2]:
+            failing.append({"input": {"kind": "expr-identity", "file": fname, "curve": cv, "subject": "%s / %s" % (b["a"], b["b"]),
+                                      "definition": b["definition"], "lines": [b["line_a"], b["line_b"]], "source": texts[fname]},
+                            "impl": "Expression::eq = %s (swapped: %s), hashes equal = %s" % (b["eq"], b["eq_swapped"], b["hash_equal"]),
+                            "spec": "structurally %s expressions (syntactic equality: the keys of the LessThan pass)" % ("identical" if b["structurally_identical"] else "different")})
+    # 1c. the generator's expectation of the abstraction vs the one derived from the IR (information: both are machinery)
+    abstraction = compare_expectation(files, dumps)
+    # 1d. every form the property and the pass sources speak of was generated (a feature never produced = a gap of the sweep)
+    feature_count = features_seen(dumps, texts)
+    for feat, n in feature_count.items():
+        if n == 0:
+            disagreements.append({"what": "the sweep generated no input with feature `%s` (see FEATURES)" % feat})
     # 2. curve names through --curve
     names = sweep_curve_names(ctx, cli, binary)
     evaluations += names["count"]
@@ -1324,9 +1881,33 @@ def run(ctx, proofs):
     for pr in names["problems"]:
         disagreements.append({"what": pr})
     nontrivial |= {("curve-name", i) for i in range(names["accepted"])}
-    # verdict
+    # 2b. the model's parse_curve on every spelling vs the executed Curve::from_str
+    spellings = list(names["observed"])
+    for s, mres in zip(spellings, model_spellings(ctx, spellings)):
+        if mres != names["observed"][s]:
+            disagreements.append({"what": "Model.Curves.parse_curve and Curve::from_str disagree", "spelling": s, "utf8_hex": hexs(s),
+                                  "model": mres, "from_str": names["observed"][s]})
+    # 3. the instantiation in a main component (known finding C11-main-component-not-analysed when listed)
+    main_fail = main_component_probe(ctx, cli)
+    evaluations += len(MAIN_PROBES)
+    listed = [k for k in common.known_findings(P) if k.get("id") == KF_MAIN and k.get("status") == "known"]
+    if main_fail and listed:
+        ctx.known_finding(KF_MAIN, "%s (%d of %d probes still unflagged, e.g. `%s` under %s: %s, documented: %s)"
+                          % (listed[0].get("what", ""), len(main_fail), len(MAIN_PROBES), main_fail[0]["input"]["statement"],
+                             main_fail[0]["input"]["curve"], main_fail[0]["impl"], main_fail[0]["spec"]))
+    else:
+        failing += main_fail
+    # verdict: at most four replays; one per kind of failing input first (corpus witness, generated statement,
+    # expression identity, curve name), so that the cap does not hide a whole class
+    def kind_of(fc):
+        fi = fc["input"]
+        return (fi.get("kind"), fi.get("rule"), "corpus" in fi)
+    firsts, rest, kinds = [], [], set()
+    for fc in failing:
+        (rest if kind_of(fc) in kinds else firsts).append(fc)
+        kinds.add(kind_of(fc))
     seen = set()
-    for fcase in failing:
+    for fcase in firsts + rest:
         fi = fcase["input"]
         subject = fi.get("subject") or fi.get("value") or fi.get("spelling") or fi.get("corpus") or fi.get("statement")
         key = (fi.get("kind"), fi.get("rule"), str(fi.get("curve")), str(subject))
@@ -1378,6 +1959,11 @@ def run(ctx, proofs):
                 "case variant of one (CS0016), a size within 250..258, non-constant or prime-dependent (CS0010), a bit size within 3 "
                 "of the prime's bit length, non-constant, prime-dependent or multiply checked (CS0014), plus the accepted curve spellings",
         "exhaustive": True,
+        "input_distribution": "per quick run: 14-15 generated files x (3 curves + no --curve); statements with oracle entries: every documented name and "
+                              "near miss once, sizes 0..300 twice (Num2Bits, Bits2Num) and once as LessThan range checks, 126 sentinel sizes three times, "
+                              "6 Forms templates (2 per curve: sizes 20/300 and bits-2/bits-1) with 20 LessThan inputs each over array elements, compound, "
+                              "prefix, reversed-arrow, loop and shadowed-component values, 2 random files x 2 templates x 90 draws over a value pool of "
+                              "scalars / array elements / 2-d elements / negations / + - * with repeated operands; features counted in features_generated",
         "exhaustive_part": "all 26 documented names x 3 curves; Num2Bits(n), Bits2Num(n), LessThan fed from Num2Bits(k) for all n,k in 0..300 x 3 curves; "
                            "all %d case variants of the three curve names; %d sentinel sizes (every power of two up to 2^70, machine-integer "
                            "boundaries +-1, 5000 +-1, sizes at/around each documented prime) for Num2Bits, Bits2Num and LessThan-from-Num2Bits x 3 curves"
@@ -1387,8 +1973,12 @@ def run(ctx, proofs):
         "anchored_source_items_matched": sum(1 for _, ok in info["sources"].get("shape", []) if ok),
         "files": len(files), "cli_runs": len(jobs) + names["count"], "instantiation_statements": instantiations,
         "template_name_universe": len(name_universe(doc["rows"])),
-        "curve_spellings": names["count"], "curve_spellings_accepted_ascii": names["accepted"],
-        "non_ascii_curve_spellings_noted": names["notes"],
+        "curve_spellings": names["count"], "curve_spellings_accepted": names["accepted"],
+        "non_ascii_curve_spellings": names["non_ascii"],
+        "model_programs": "derived from the tool's IR (harness `curves ir`): %d (file, curve) dumps" % len(dumps),
+        "expression_identity_pairs_checked": eq_pairs,
+        "abstraction_expectation": abstraction,
+        "features_generated": feature_count,
         "corpus_cases": ncorpus,
         "default_curve_runs": {"cli_runs_without_curve_option": len(files) + 1, "evaluations": default_evaluations + 1,
                                "probe_behaves_as": names["default_seen"], "documented_default": DOC_DEFAULT,
@@ -1397,11 +1987,26 @@ def run(ctx, proofs):
         "spec_failures": len(failing),
         "samples": (failing[:2] or disagreements[:2]) or actual_samples,
         "executed_primes": {v: str(info["primes"][v]["prime"]) for v in VARIANTS if v in info["primes"]},
-        "open_statements": [],
+        "open_statements": [
+            "forall statements s of a CFG: the abstraction `curves ir` computes for s (type knowledge, call, argument values, access path, "
+            "structural identity of the value) is what the three passes inspect of s - there is no Gallina model of the IR in this engine; "
+            "tied by the end-to-end comparison on every generated definition and by the generator's expectation, not proved",
+            "forall expressions e1 e2: Expression::eq e1 e2 <-> the structural identities agree, and equal expressions hash alike - "
+            "executed on every pair of key expressions of the generated definitions, not proved (no model of PartialEq / Hash for Expression)",
+            "forall size expressions: the tool's value knowledge is Some(FieldElement n) iff the expression is a compile-time constant of "
+            "value n in the documented field - the subject of C06; exercised here with literals, operators, variable chains, branches, hexadecimal "
+            "and prime-dependent constants against an independent oracle",
+            "the instantiation in a main component is examined like one in a template: FALSE on the current tree "
+            "(known finding C11-main-component-not-analysed)",
+        ],
     })
     ctx.assumptions += [
-        "the abstraction of a generated .circom statement to the model's statement (type knowledge, call name, argument value knowledge, access "
-        "path, printed right-hand side) is written by the generator in lib/props/C11.py; it is checked by the end-to-end comparison, not proved",
+        "the abstraction of a statement of the tool's IR to the model's statement (type knowledge, call name, value knowledge of the arguments, access "
+        "path, structural identity of the constrained value) is computed from the CFG the passes receive by harness/src/bin/curves.rs (`curves ir`, "
+        "about 100 lines: AnalysisRunner::with_files, cfg.iter()/basic_block.iter(), type_knowledge(), value(), fn ident); it is trusted code, "
+        "cross-checked by the end-to-end comparison and by the generator's own expectation of it (coverage.abstraction_expectation), not proved",
+        "structural identity of expressions (every field but the metas) is the reading of `the same value` used by model and oracle; the real "
+        "Expression::eq / Hash are compared with it on every pair of key expressions of every generated definition (coverage.expression_identity_pairs_checked)",
         "value knowledge of size arguments comes from the tool's constant propagation (property C06); here it is exercised with literals "
         "(dense range and large sentinels), every arithmetic/bitwise/comparison/ternary operator on literals, local-variable chains, compound "
         "assignment, a variable assigned on both branches, and constants that are only determined modulo the prime",
@@ -1409,7 +2014,11 @@ def run(ctx, proofs):
         "Rust files) is trusted to cut items correctly; what it guarantees is that every token of the anchored items is accounted for by "
         "the template, and the behaviour of the items it does not anchor (report builders, Display/Debug of Curve) is not part of the model",
         "Circomlib's spelling of the documented names (Bits2Point_Strict, Point2Bits_Strict) is a fixed part of the specification (Spec.CurvesSpec.circomlib_spelling)",
-        "non-ASCII --curve spellings are compared with Unicode upper-casing by test only; those accepted (e.g. `blſ12_381`) are noted, not violations",
+        "the model of str::to_uppercase (used only when the source names that normaliser again) rests on the executed table of the characters whose "
+        "upper-casing is ASCII text (`curves upper-table`, every code point) and on Rust's to_uppercase being character-wise",
+        "which inputs of LessThan / Num2Bits the pass finds at all (`<--`, array literals, inputs of anonymous components, a check in another loop "
+        "are not tracked) is mirrored by the model and compared with the binary, but is not part of the oracle: the property speaks of what counts "
+        "as a range check",
         "the three documented primes are the constants of Spec.CurvesSpec (BN254 and BLS12-381 scalar fields in hexadecimal, Goldilocks as 2^64 - 2^32 + 1)",
     ]
 
@@ -1429,6 +2038,14 @@ def replay(ctx, rep):
     os.makedirs(d, exist_ok=True)
     path = os.path.join(d, "replay.circom")
     open(path, "w").write(inp["source"])
+    if inp.get("kind") == "expr-identity":
+        dmp = ir_programs(binary, {"replay": path})[("replay", inp.get("curve", DOC_DEFAULT))]
+        bad = dmp.get("eq_bad", [])
+        print("Expression::eq / Hash against structural identity on the key expressions of the file: %d pairs, %d deviating" % (dmp.get("eq_pairs", 0), len(bad)))
+        for b in bad[:3]:
+            print("  `%s` (line %s) / `%s` (line %s): structurally identical %s, eq %s, hashes equal %s"
+                  % (b["a"], b["line_a"], b["b"], b["line_b"], b["structurally_identical"], b["eq"], b["hash_equal"]))
+        return 1 if bad else 0
     curve = None if inp["curve"] == DEFAULT_RUN else CURVE_ARG.get(inp["curve"], inp["curve"])
     rc, res, err = run_cli(cli, path, curve, path + ".sarif")
     rule = inp.get("rule")
